@@ -128,6 +128,11 @@ func (c *Ctx) runModelCase(s *Sub, src, stdin string, opt model.Options, o judge
 	if c.stepOverride > 0 {
 		opt.MaxSteps = c.stepOverride
 	}
+	realDepth := int64(4000)
+	if c.depthOverride > 0 {
+		opt.MaxDepth = c.depthOverride
+		realDepth = int64(c.depthOverride) + 200
+	}
 	if stdin != "" {
 		opt.Stdin = strings.Split(strings.TrimSuffix(stdin, "\n"), "\n")
 	}
@@ -144,7 +149,7 @@ func (c *Ctx) runModelCase(s *Sub, src, stdin string, opt model.Options, o judge
 		return mc
 	}
 	budget := 50*res.Steps + 100000
-	mc.Resp = c.W().Run(run.Req{Src: src, Stdin: stdin, Budget: budget, Depth: 4000})
+	mc.Resp = c.W().Run(run.Req{Src: src, Stdin: stdin, Budget: budget, Depth: realDepth})
 	mc.Sig, mc.Msg = judgeModel(&mc.Resp, res, budget, o)
 	// CLI cross-check of a deterministic sample: the batch mode (verif hook) and
 	// the ordinary executable must show the same behaviour for the same program
@@ -153,7 +158,18 @@ func (c *Ctx) runModelCase(s *Sub, src, stdin string, opt model.Options, o judge
 		every = 150
 	}
 	if mc.Sig == "" && ev.Hash(src)%every == 0 && (mc.Resp.Class() == run.Clean || mc.Resp.Class() == run.RtError) {
-		cr := c.CLIScript(src, stdin, 30*time.Second)
+		// the script file as generated, without its final newline, or with CRLF line ends (no multi-line tokens):
+		// none of these is significant
+		cliSrc := src
+		switch (ev.Hash(src) / every) % 3 {
+		case 1:
+			cliSrc = strings.TrimRight(src, "\n")
+		case 2:
+			if !strings.Contains(src, "\"") && !strings.Contains(src, "/*") {
+				cliSrc = strings.ReplaceAll(src, "\n", "\r\n")
+			}
+		}
+		cr := c.CLIScript(cliSrc, stdin, 30*time.Second)
 		c.Ev.Class("cli-crosscheck")
 		wantStatus := 0
 		if mc.Resp.Class() == run.RtError {
